@@ -189,6 +189,40 @@ func unbalancedTreeScenarios(tier string) []clustermc.Scenario {
 	return wlScenariosRange(menu, lay, qsets, []schedrun.Config{{}, {SaturationMultiplier: "1.5", ConsolidatingReclaim: true}}, 2, kMax)
 }
 
+// mixedVictimScenarios: ONE reclaimer whose victims have to come from a sibling leaf queue of its own
+// department AND from a foreign department (over-quota weights 0: fair share = deserved quota); the
+// reclaimer's department must not end above its fair share and more saturated than the department it took from.
+func mixedVictimScenarios(tier string) []clustermc.Scenario {
+	menu := []wlItem{
+		{"run-g1-a2", world.WL{Queue: "a2", Pods: pods(1, shG1, world.StRunning, "n1")}},
+		{"run-g1-b1", world.WL{Queue: "b1", Pods: pods(1, shG1, world.StRunning, "n1")}},
+		{"pend-g2-a1", world.WL{Queue: "a1", Pods: pods(1, shG2, "", "")}},
+		{"pend-gang2-a1", world.WL{Queue: "a1", MinMember: 2, Pods: pods(2, shG1, "", "")}},
+		{"pend-g1-a1", world.WL{Queue: "a1", Pods: pods(1, shG1, "", "")}},
+	}
+	u := world.QUnlimited()
+	g := func(q float64) world.QRes { return world.QRes{Quota: q, Limit: -1, Weight: 0} }
+	var qsets []queueSetup
+	for _, da := range []float64{2, 3} {
+		da := da
+		qsets = append(qsets, queueSetup{name("mixed-dA(a1q2,a2q1)-dB(b1q2)-w0-dAquota", []int{int(da)}), func(b *world.Builder) {
+			for _, q := range []world.QueueOpt{{Name: "dA", GPU: g(da)}, {Name: "dB", GPU: g(2)}, {Name: "a1", Parent: "dA", GPU: g(2)}, {Name: "a2", Parent: "dA", GPU: g(1)}, {Name: "b1", Parent: "dB", GPU: g(2)}} {
+				q.CPU, q.Mem = u, u
+				b.Queue(q)
+			}
+		}})
+	}
+	lay := []nodeLayout{
+		{"1n-5gpu", []world.NodeOpt{{Name: "n1", CPU: "16", Mem: "32Gi", GPUs: 5, GPUMemMiB: 40000}}},
+		{"1n-4gpu", []world.NodeOpt{{Name: "n1", CPU: "16", Mem: "32Gi", GPUs: 4, GPUMemMiB: 40000}}},
+	}
+	kMax := 6
+	if tier == "thorough" {
+		kMax = 7
+	}
+	return wlScenariosRange(menu, lay, qsets, []schedrun.Config{{}, {SaturationMultiplier: "1.5"}}, 4, kMax)
+}
+
 func C07() *clustermc.Family {
 	return &clustermc.Family{
 		Property: "C07",
@@ -198,7 +232,7 @@ func C07() *clustermc.Family {
 				{"2n-3+1gpu", []world.NodeOpt{{Name: "n1", CPU: "16", Mem: "32Gi", GPUs: 3, GPUMemMiB: 40000}, {Name: "n2", CPU: "16", Mem: "32Gi", GPUs: 1, GPUMemMiB: 40000}}},
 			}
 			cfgs := []schedrun.Config{{}, {SaturationMultiplier: "1.5", ConsolidatingReclaim: true}}
-			return append(append(append(wlScenarios(tier, reclaimMenu(), lay, reclaimQueues(), cfgs, 3, 4), crossDeptScenarios(tier)...), multiReclaimerScenarios(tier)...), unbalancedTreeScenarios(tier)...)
+			return append(append(append(append(wlScenarios(tier, reclaimMenu(), lay, reclaimQueues(), cfgs, 3, 4), crossDeptScenarios(tier)...), multiReclaimerScenarios(tier)...), unbalancedTreeScenarios(tier)...), mixedVictimScenarios(tier)...)
 		},
 		Depth: func(tier string) int {
 			if tier == "thorough" {
